@@ -89,6 +89,13 @@ def check_machine(ctx, prog, f):
         'intrinsics': {},
         'stop_state': lambda env: env.vars['state'] == S['ERR'],
     }
+    ref_bad = []
+
+    def after_step(m, before, after, ctl, c):
+        if 'REF_START' in S and after.vars['state'] == S['REF_START'] and before.vars['state'] != S['REF_START']:
+            if after.vars['lastState'] != before.vars['state']:
+                ref_bad.append((before.vars['state'], after.vars['lastState'], m.witness(before.key()) + bytes([c & 255])))
+    desc['after_step'] = after_step
     m = XmlMachine(prog, desc)
     try:
         m.explore()
@@ -109,6 +116,14 @@ def check_machine(ctx, prog, f):
         line, detail, cfgdesc, byte, wit = groups[role][0]
         ctx.violation('C07.stack', f['pq'], 'decode:' + role, fwhere(f, line or None),
                       '%s; e.g. on byte 0x%02x in configuration {%s} (%d abstract transitions); shortest abstract witness input %r' % (detail, byte, cfgdesc, len(groups[role]), wit))
+    Sn = dict((v, k) for k, v in S.items())
+    if ref_bad:
+        ref_bad.sort(key=lambda x: len(x[2]))
+        b0 = ref_bad[0]
+        ctx.violation('C07.stack', f['pq'], 'decode:a reference returns to the state it interrupted', fwhere(f),
+                      'an entity/character reference met in state %s will return to state %s (the saved state is stale): the text after the reference is parsed as if inside an attribute value or vice versa; abstract witness input %r' % (Sn.get(b0[0]), Sn.get(b0[1]), b0[2]))
+    else:
+        ctx.ok('C07.stack', f['pq'], 'decode:a reference returns to the state it interrupted', fwhere(f), 'on every transition into the reference state the saved state equals the interrupted state')
     if not groups:
         ctx.ok('C07.stack', f['pq'], 'decode:stack safety over all reachable configurations', fwhere(f), '%d configurations, %d transitions: no unsafe popget/top, look-behind within consumed input' % (len(m.configs), m.transitions))
 
